@@ -173,7 +173,7 @@ M("c02-ladder-ack-on-failure", ["C02"], [(PROC, '''        elif result.success:
         # nack
         else:
             await self._conn.message_broker.ack(key)''')], "R-C02-LADDER")
-M("c02-requeue-raw-payload", ["C02", "C07"], [(PROC, "await self.report_to_broker(actor, key, payload, parameters, result)", "await self.report_to_broker(actor, key, raw_payload, parameters, result)")], None)
+M("c02-requeue-raw-payload", ["C02"], [(PROC, "await self.report_to_broker(actor, key, payload, parameters, result)", "await self.report_to_broker(actor, key, raw_payload, parameters, result)")], None)
 M("c02-policy-without-plus-one", ["C02", "C04"], [(PROC, "parameters._prepare_retry(actor.retry_policy(parameters.retries.already_tried + 1)),", "parameters._prepare_retry(actor.retry_policy(parameters.retries.already_tried)),")], None)
 M("c02-eager-still-reports", ["C02", "C13"], [(PROC, '''        if result.reporting_done:  # actor has finished gracefully, but no action is required
             self._processed += 1
@@ -429,7 +429,7 @@ M("c08-default-converter-order", ["C08"], [(CONV, '''        if is_installed("py
             return PydanticV1Converter(fn)
         if is_installed("pydantic", ">=1.0.0,<2.0.0"):
             return PydanticConverter(fn)''')], "R-C08-CALL")
-M("c08-actor-gets-raw-payload", ["C08", "C07"], [(PROC, "result = await self.actor_run(actor, key, parameters, raw_payload, self._conn)", "result = await self.actor_run(actor, key, parameters, payload, self._conn)")], None)
+M("c08-actor-gets-raw-payload", ["C08"], [(PROC, "result = await self.actor_run(actor, key, parameters, raw_payload, self._conn)", "result = await self.actor_run(actor, key, parameters, payload, self._conn)")], None)
 R("c08-r-pydantic-explicit-guard", ["C08"], [(CONV, '''        loaded = dict(self.input_pydantic_model.model_validate_json(data or "{}"))
 ''', '''        if not data:
             data = "{}"
